@@ -43,6 +43,9 @@ func (ownErr) Error() string   { return "connection refused (fake)" }
 func (ownErr) Timeout() bool   { return false }
 func (ownErr) Temporary() bool { return true }
 
+// errRefused: the wrapped connection does not accept the deadline call (e.g. a connection type without deadline support)
+var errRefused = errors.New("deadline not supported right now (fake)")
+
 type fakeAddr struct{}
 
 func (fakeAddr) Network() string { return "fake" }
@@ -58,6 +61,8 @@ type fake struct {
 	credit  int      // writes the peer will take
 	half    bool     // the peer takes the first half of a pending write and then stalls
 	fail    bool     // the next operation that would wait fails with ownErr instead
+	refuse  bool     // the next call that sets a deadline is refused (errRefused) and changes nothing
+	refusedEver bool // some deadline call was refused: the wrapper cannot be held to its promises about deadlines any more
 	calls   []call   // every call of the wrapped operation: who, the bytes transferred, how it ended
 	inWrite int      // Write calls currently parked in the wrapped connection
 	wcalls  []wcall  // every Write call: who, how many bytes were taken, which
@@ -197,9 +202,20 @@ func (f *fake) Close() error                              { return nil }
 func (f *fake) LocalAddr() net.Addr                       { return fakeAddr{} }
 func (f *fake) RemoteAddr() net.Addr                      { return fakeAddr{} }
 
-func (f *fake) setDL(which int, t time.Time) {
+func (f *fake) setDL(which int, t time.Time) error {
 	f.mu.Lock()
 	f.sdCalls++
+	if f.refuse {
+		f.refuse = false
+		f.refusedEver = true
+		k := 3 // refused, zero time
+		if !t.IsZero() {
+			k = 4 // refused, non-zero time
+		}
+		f.s.Record(f.s.CurID(), "SD", "", k+10*which)
+		f.mu.Unlock()
+		return errRefused
+	}
 	k := 0
 	if past(t) {
 		k = 1
@@ -215,10 +231,11 @@ func (f *fake) setDL(which int, t time.Time) {
 	}
 	f.poke()
 	f.mu.Unlock()
+	return nil
 }
-func (f *fake) SetReadDeadline(t time.Time) error  { f.setDL(0, t); return nil }
-func (f *fake) SetWriteDeadline(t time.Time) error { f.setDL(1, t); return nil }
-func (f *fake) SetDeadline(t time.Time) error      { f.setDL(2, t); return nil }
+func (f *fake) SetReadDeadline(t time.Time) error  { return f.setDL(0, t) }
+func (f *fake) SetWriteDeadline(t time.Time) error { return f.setDL(1, t) }
+func (f *fake) SetDeadline(t time.Time) error      { return f.setDL(2, t) }
 
 // ---- the six operations ------------------------------------------------------------------------------
 
@@ -340,13 +357,15 @@ func run(h *common.History, kind, nops int, schedule []int, direct bool) {
 		o.g = s.Go("op", func() {
 			n, err := op(o.ctx, o.buf)
 			o.n, o.err, o.returned = n, err, true
-			ce, oe := 0, 0
+			ce, oe, se := 0, 0, 0
 			if err != nil && (errors.Is(err, context.Canceled) || errors.Is(err, context.DeadlineExceeded)) {
 				ce = 1
 			} else if err != nil && errors.As(err, &ownErr{}) {
 				oe = 1
+			} else if err != nil && errors.Is(err, errRefused) {
+				se = 1
 			}
-			s.Record(o.g.ID, "R", "", n*4+oe*2+ce)
+			s.Record(o.g.ID, "R", "", n*8+se*4+oe*2+ce)
 		})
 		gid2op[o.g.ID] = i
 	}
@@ -423,6 +442,17 @@ func run(h *common.History, kind, nops int, schedule []int, direct bool) {
 		}
 		f.mu.Unlock()
 		s.Settle()
+	}
+	tainted := false
+	doRefuse := func() {
+		// the wrapped connection will refuse the next deadline call
+		f.mu.Lock()
+		ok := !f.refuse
+		if ok {
+			f.refuse = true
+			s.Record(-1, "RF", "", 0)
+		}
+		f.mu.Unlock()
 	}
 	doHalf := func() {
 		// the peer takes part of the pending write (writes only, and only while a write is parked in the wrapped connection)
@@ -534,6 +564,9 @@ func run(h *common.History, kind, nops int, schedule []int, direct bool) {
 			case e == -8:
 				stepped = append(stepped, -8)
 				doFail()
+			case e == -9:
+				stepped = append(stepped, -9)
+				doRefuse()
 			case e == -3:
 				if next < nops {
 					stepped = append(stepped, -3)
@@ -566,7 +599,10 @@ func run(h *common.History, kind, nops int, schedule []int, direct bool) {
 			flags |= fNotPrompt // unfinished operations, nobody can move, nobody waits for the wrapped connection
 			break
 		}
-		if holder.cancelled { // nothing is at a yield point any more
+		f.mu.Lock()
+		refusedEver := f.refusedEver
+		f.mu.Unlock()
+		if holder.cancelled && !refusedEver { // nothing is at a yield point any more
 			flags |= fNotPrompt
 			break
 		}
@@ -578,7 +614,7 @@ func run(h *common.History, kind, nops int, schedule []int, direct bool) {
 			break
 		}
 		alt++
-		if (alt+len(schedule))%2 == 0 {
+		if (alt+len(schedule))%2 == 0 && !holder.cancelled {
 			stepped = append(stepped, -1)
 			doCancel(holder)
 		} else {
@@ -609,7 +645,7 @@ func run(h *common.History, kind, nops int, schedule []int, direct bool) {
 			}
 		}
 		failedItself := len(mine) == 1 && mine[0].failed
-		if o.err != nil && !isCtxErr && o.ctx.Err() == nil && !(failedItself && errors.As(o.err, &ownErr{})) {
+		if o.err != nil && !isCtxErr && o.ctx.Err() == nil && !(failedItself && errors.As(o.err, &ownErr{})) && !errors.Is(o.err, errRefused) {
 			flags |= fSpurious
 		}
 		if failedItself && o.err == nil {
@@ -672,8 +708,16 @@ func run(h *common.History, kind, nops int, schedule []int, direct bool) {
 			walive = true
 		}
 	}
+	f.mu.Lock()
+	refusedEver := f.refusedEver
+	f.mu.Unlock()
+	if refusedEver {
+		// the connection refused a deadline call: a forced deadline may have stayed, operations may have timed out because of it
+		// or could not be cancelled; only the byte accounting and the error rules that do not involve deadlines are judged
+		flags &^= fSpurious | fNotPrompt | fStuck
+	}
 	if allReturned {
-		if leftover {
+		if leftover && !refusedEver {
 			flags |= fLeftoverDL
 		}
 		if walive {
@@ -752,12 +796,21 @@ func run(h *common.History, kind, nops int, schedule []int, direct bool) {
 			emit(17)
 		case "FA":
 			emit(20)
+		case "RF":
+			emit(21)
 		case "SD":
 			which := e.K / 10
 			dirOK := (isWrite(kind) && which == 1) || (!isWrite(kind) && which == 0)
 			switch {
 			case !dirOK:
 				emit(93)
+			case e.K%10 == 4:
+				emit(22) // the forcing call was refused
+				tainted = true
+			case e.K%10 == 3:
+				emit(11)
+				emit(23) // the restoring call was refused
+				tainted = true
 			case e.K%10 == 1:
 				emit(10)
 			case e.K%10 == 0:
@@ -767,7 +820,7 @@ func run(h *common.History, kind, nops int, schedule []int, direct bool) {
 				emit(92)
 			}
 		case "R":
-			emit(7, e.K/4, e.K%2, (e.K/2)%2)
+			emit(7, e.K/8, e.K%2, (e.K/2)%2, (e.K/4)%2)
 			retd[oi] = true
 		case "CA":
 			oi2 := gid2op[e.K]
@@ -793,7 +846,7 @@ func run(h *common.History, kind, nops int, schedule []int, direct bool) {
 	}
 	// per-operation byte counts are compared inside the replay as 0 / 1 ("some"): normalise
 	for _, seg := range h.Ops {
-		if len(seg) == 4 && seg[0] == "7" && seg[1] != "0" {
+		if len(seg) == 5 && seg[0] == "7" && seg[1] != "0" {
 			seg[1] = "1"
 		}
 	}
@@ -821,6 +874,7 @@ func run(h *common.History, kind, nops int, schedule []int, direct bool) {
 		tag(o.err == nil && o.n == 0, "empty_transfer")
 	}
 	tag(len(preCancel) > 0, "cancel_before_lock")
+	tag(tainted, "deadline_call_refused")
 	tag(nops >= 3, "ops>=3")
 	h.Tags = append(h.Tags, "kind"+common.I(kind))
 
@@ -853,7 +907,10 @@ func gen(r *rand.Rand) (kind, nops int, sched []int) {
 		}
 		// decisions for about one operation: ~12 goroutine steps with environment events sprinkled in
 		k := 6 + r.IntN(14)
-		cancelAt, readyAt, halfAt, failAt := -1, -1, -1, -1
+		cancelAt, readyAt, halfAt, failAt, refuseAt := -1, -1, -1, -1, -1
+		if r.IntN(8) == 0 {
+			refuseAt = r.IntN(k) // the wrapped connection refuses the next deadline call
+		}
 		if r.IntN(3) == 0 {
 			halfAt = 5 + r.IntN(k) // the peer takes half of a parked write (writes only)
 		}
@@ -897,6 +954,9 @@ func gen(r *rand.Rand) (kind, nops int, sched []int) {
 			}
 			if j == failAt {
 				sched = append(sched, -8)
+			}
+			if j == refuseAt {
+				sched = append(sched, -9)
 			}
 			if r.IntN(25) == 0 {
 				sched = append(sched, -3)
